@@ -2857,6 +2857,44 @@ def translate() -> tuple[str, dict]:
     E.lines.append(f'Definition g_from_entity_reads_instance_keyvalues : bool := {"true" if args_as_wanted and init_ok else "false"}.')
     E.lines.append(f'Definition g_from_entity_style_default_prefix : bool := {"true" if style_ok else "false"}.')
 
+    # --- Manifest (round 5): a VMM sub-map is an Instance "collapsed directly at the existing position", names unaltered: the
+    # super().__init__(...) call of Manifest.__init__ matched against Instance.__init__ (positional or keyword, locals inlined)
+    # must pass Vec() / Matrix() without arguments (origin 0, identity) and FixupStyle.NONE, name and file name through.
+    man_cls = next((n for n in itree.body if isinstance(n, ast.ClassDef) and n.name == 'Manifest'), None)
+    man_ok, man_info = False, {'present': man_cls is not None}
+    if man_cls is not None:
+        if [ast.unparse(b_) for b_ in man_cls.bases] != ['Instance']:
+            raise TranslateError('instancing.py: Manifest is not a direct subclass of Instance')
+        m_init = next((f_ for f_ in man_cls.body if isinstance(f_, ast.FunctionDef) and f_.name == '__init__'), None)
+        overridden = sorted(f_.name for f_ in man_cls.body if isinstance(f_, ast.FunctionDef) and f_.name in ('fixup_name', 'fixup_key', 'from_entity'))
+        if m_init is None:
+            raise TranslateError('instancing.py: Manifest.__init__ not found')
+        m_locals = _single_assigned_locals(m_init)
+        sup = [n for n in ast.walk(m_init) if isinstance(n, ast.Call) and isinstance(n.func, ast.Attribute) and n.func.attr == '__init__'
+               and ast.unparse(n.func.value) in ('super()', 'Instance', 'super(Manifest, self)')]
+        if len(sup) != 1:
+            raise TranslateError('Manifest.__init__: exactly one call of Instance.__init__ expected')
+        s_args = list(sup[0].args)[(1 if ast.unparse(sup[0].func.value) == 'Instance' else 0):]
+        m_bound: dict[str, str] = {}
+        for k_, a_ in enumerate(s_args):
+            if isinstance(a_, ast.Starred) or k_ >= len(params):
+                raise TranslateError('Manifest.__init__: arguments of Instance.__init__ not understood')
+            m_bound[params[k_]] = ast.unparse(m_locals.get(a_.id, a_) if isinstance(a_, ast.Name) else a_)
+        for kw_ in sup[0].keywords:
+            if kw_.arg is None or kw_.arg not in params:
+                raise TranslateError('Manifest.__init__: keyword of Instance.__init__ not understood')
+            m_bound[kw_.arg] = ast.unparse(m_locals.get(kw_.value.id, kw_.value) if isinstance(kw_.value, ast.Name) else kw_.value)
+        m_params = [a_.arg for a_ in m_init.args.args[1:]]
+        # pos / orient / fixup_type are not re-assigned afterwards in __init__
+        later = [ast.unparse(t_) for st_ in ast.walk(m_init) if isinstance(st_, (ast.Assign, ast.AugAssign, ast.AnnAssign))
+                 for t_ in (st_.targets if isinstance(st_, ast.Assign) else [st_.target])]
+        man_ok = m_bound.get('pos') == 'Vec()' and m_bound.get('orient') == 'Matrix()' and m_bound.get('fixup_type') == 'FixupStyle.NONE' \
+            and len(m_params) >= 2 and m_bound.get('name') == m_params[0] and m_bound.get('filename') == m_params[1] \
+            and not overridden and not any(t_ in ('self.pos', 'self.orient', 'self.fixup_type', 'self.name', 'self.filename') for t_ in later)
+        man_info.update(arguments=m_bound, overridden=overridden, stores=later)
+    side['manifest'] = man_info
+    E.lines.append(f'Definition g_manifest_identity_placement_names_unaltered : bool := {cb_(man_ok)}.')
+
     # name-typed keyvalues (type.is_ent_name, TARG_DEST_CLASS when not a classname): the value goes through fixup_name, whole
     name_br = [nd for nms, nd in branches if '<is_ent_name>' in nms]
     cls_br = [nd for nms, nd in branches if 'TARG_DEST_CLASS' in nms]
